@@ -105,6 +105,12 @@ Complements ==
 F1Harmonic == Eq(F1(Pos), Div(Mul(<<2, 1>>, Mul(Precision(Pos), Recall(Pos))), Add(Precision(Pos), Recall(Pos))))
 \* swapping the classes swaps sensitivity and specificity
 ClassSymmetry == Eq(Recall(Neg), Specificity(Pos)) /\ Eq(Precision(Neg), NPV(Pos)) /\ MccNum(Neg) = MccNum(Pos)
+\* every rate is a ratio of counts: repeating the whole dataset c times changes nothing (and MCC's numerator and squared
+\* denominator scale with c^2 and c^4) - the harness replays this with repetition factors that make the counts large
+Scaled(c) == M(c * tp, c * fp, c * tn, c * fn)
+ScaleInvariant == \A c \in {2, 3} :
+                    /\ \A nme \in Rates \cup {"informedness", "markedness"} : Eq(Value(nme, Scaled(c)), Value(nme, Pos))
+                    /\ MccNum(Scaled(c)) = c * c * MccNum(Pos) /\ MccDen2(Scaled(c)) = c * c * c * c * MccDen2(Pos)
 \* MCC^2 <= 1
 MccBounded == MccNum(Pos) * MccNum(Pos) <= MccDen2(Pos)
 
